@@ -262,6 +262,9 @@ func runRoute(t *testing.T, c spec.Case, e Em) {
 				o.PeerID, o.PeerNonce, o.PayloadOK, o.Extra, o.Err = x.PeerID, x.PeerNonce, x.PayloadOK, x.Extra, errStr(err)
 			} else {
 				var r *vp.DialRes
+				if it.HoldAtGotInfoMs > 0 {
+					gotInfoHold.Store(id, time.Duration(it.HoldAtGotInfoMs)*time.Millisecond)
+				}
 				if it.ShortConnect {
 					r = vp.GRPCDialPingShort(dg, id, 40*time.Second)
 				} else if it.WaitReady {
@@ -436,11 +439,19 @@ func runRoute(t *testing.T, c spec.Case, e Em) {
 
 // pickupHold: ids whose Accept is held at the hook point between taking the parked connection and
 // acknowledging it (several cases run in one process: ids of such items are made unique per case).
-var pickupHold sync.Map // uint32 -> time.Duration
+var pickupHold sync.Map  // uint32 -> time.Duration
+var gotInfoHold sync.Map // the same for Dials held at grpcbroker.dial.gotInfo
 
 func routeTest(t *testing.T, par int, points ...string) {
 	jit := vp.Jitter(seedEnv(), 3000, &routeHooks, points...)
 	plugin.VerifSetHook(func(name string, id uint32) {
+		if name == "grpcbroker.dial.gotInfo" {
+			if d, ok := gotInfoHold.LoadAndDelete(id); ok {
+				routeHooks.Inc(name)
+				time.Sleep(d.(time.Duration))
+				return
+			}
+		}
 		if name == "mux.accept.gotConn" {
 			if d, ok := pickupHold.LoadAndDelete(id); ok {
 				routeHooks.Inc(name)
